@@ -45,6 +45,10 @@ class Harness(cm.BaseB):
                     for lw in ("P", "T"):
                         yield {"k": "bad", "dev": chunk["dev"], "op": op, "id": bad, "lw": lw}
             yield {"k": "emit", "dev": chunk["dev"]}
+            for first in ("plate", "trough"):
+                yield {"k": "samename", "dev": chunk["dev"], "first": first}
+            for R, C in ((1, 120), (2, 101), (8, 100)):
+                yield {"k": "longid", "dev": chunk["dev"], "R": R, "C": C}
 
     def one(self, case):
         return getattr(self, "one_" + case["k"])(case)
@@ -191,6 +195,63 @@ class Harness(cm.BaseB):
             elif p["kind"] in ("Aspirate", "Dispense") and out != "ok":
                 V.append(("C08/record-for-nonexistent-well", f"{op} {bad!r}: script command emitted although the call raised"))
         return f"bad:{op}:{out}", repr(case), V
+
+    def one_samename(self, case):
+        """one worklist object, a plate and a trough that carry the same name and have the same shape"""
+        dev = "evo" if case["dev"] == "EvoWorklist" else "fluent"
+        wl = getattr(rt, case["dev"])(max_volume=950)
+        V = []
+        kinds = ["plate", "trough"] if case["first"] == "plate" else ["trough", "plate"]
+        for kind in kinds + kinds[:1]:
+            if kind == "plate":
+                lw = rt.Labware("reservoir", 4, 3, min_volume=0, max_volume=1e5, initial_volumes=5e4)
+            else:
+                lw = rt.Trough("reservoir", 4, 3, min_volume=0, max_volume=1e5, initial_volumes=[5e4] * 3)
+            g = Geo("reservoir", kind, 4, 3)
+            other = rt.Labware("D", 4, 3, min_volume=0, max_volume=1e5)
+            for w in g.ids():
+                for op in ("aspirate", "transfer"):
+                    del wl[:]
+                    if op == "aspirate":
+                        wl.aspirate(lw, [w], 10)
+                    else:
+                        wl.transfer(lw, [w], other, [w], 10)
+                    p = gwl.parse([r for r in wl if r[0] == "A"][0])
+                    if p["position"] != g.position(dev, w):
+                        V.append(("C08/emitted-position", f"{case['dev']}.{op} on the {kind} 'reservoir' (4 x 3), used on the same worklist as a {kinds[1] if kind == kinds[0] else kinds[0]} of that name and shape: {w} emitted as {p['position']}, expected {g.position(dev, w)}"))
+        return "samename", repr(case), V[:6]
+
+    def one_longid(self, case):
+        """well IDs of different length in one call (columns beyond 99): several sources into one destination and back"""
+        dev = "evo" if case["dev"] == "EvoWorklist" else "fluent"
+        R, C = case["R"], case["C"]
+        g = Geo("L", "plate", R, C)
+        V = []
+        far = well_id(R - 1, C - 1)
+        near = [well_id(0, 0), well_id(0, 1), well_id(R - 1, 2)]
+        for src, dst in ((near, far), (near, [far]), (far, near), ([far, well_id(0, 99)], well_id(0, 0)), (near[:1], [far, well_id(0, 99)])):
+            lw = rt.Labware("L", R, C, min_volume=0, max_volume=1e5, initial_volumes=5e4)
+            wl = getattr(rt, case["dev"])(max_volume=950)
+            try:
+                wl.transfer(lw, src, lw, dst, 10)
+            except Exception as e:
+                V.append(("C08/position-raised", f"{case['dev']}.transfer on a {R} x {C} plate from {src} to {dst} raised {type(e).__name__}: {e}"))
+                continue
+            sl, dl = ([src] if isinstance(src, str) else src), ([dst] if isinstance(dst, str) else dst)
+            n = max(len(sl), len(dl))
+            sl, dl = (sl * n if len(sl) == 1 else sl), (dl * n if len(dl) == 1 else dl)
+            P = [gwl.parse(r) for r in wl if r[0] in "AD"]
+            got = sorted((P[i]["position"], P[i + 1]["position"]) for i in range(0, len(P) - 1, 2))
+            want = sorted((g.position(dev, a), g.position(dev, b)) for a, b in zip(sl, dl))
+            if got != want:
+                V.append(("C08/emitted-position", f"{case['dev']}.transfer on a {R} x {C} plate from {src} to {dst}: (aspirate, dispense) positions {got}, expected {want}"))
+            exp = lw.volumes * 0 + 5e4
+            for a, b in zip(sl, dl):
+                exp[g.real(a)] -= 10
+                exp[g.real(b)] += 10
+            if (lw.volumes != exp).any():
+                V.append(("C08/emitted-position", f"{case['dev']}.transfer on a {R} x {C} plate from {src} to {dst} tracked other wells than those named"))
+        return "longid", repr(case), V
 
     def one_emit(self, case):
         """the position field of the records emitted for every valid well"""
